@@ -352,6 +352,46 @@ def part_decorators(payload):
                     core.classify(known, part, f"C19:returns:result-altered:{un}", {"dimension": name})
                 else:
                     part.nt(("returns", name, un, passed))
+        # histories on ONE decorated function whose slots have different dimensions: a valid call first, then the same
+        # units in the wrong slots, then valid again (the verdict depends on the call, not on what passed earlier)
+        wdim = wrong.units.dimensions
+        box = {"ret": None}
+
+        @returns(dim, wdim)
+        def h_ret():
+            calls["n"] += 1
+            return box["ret"]
+
+        @accepts(a=dim, b=wdim)
+        def h_acc(a, b):
+            calls["n"] += 1
+            return "ran"
+
+        for q in spell[:3]:
+            seq = [((q, wrong), True), ((wrong, q), False), ((q, q), False), ((q, wrong), True), ((wrong, wrong), False), ((wrong, q), False), ((q, wrong), True)]
+            for kind in ("returns", "accepts"):
+                for step, (pair, should_pass) in enumerate(seq):
+                    part.ev()
+                    fresh()
+                    box["ret"] = pair
+                    try:
+                        r = h_ret() if kind == "returns" else h_acc(*pair)
+                        passed = True
+                    except TypeError:
+                        passed = False
+                    except Exception as e:
+                        core.classify(known, part, f"C19:{kind}:wrong-exception:history", {"dimension": name, "error": f"{type(e).__name__}: {e}"[:160]})
+                        continue
+                    un = f"history-step{step}:{'swapped-slots' if not should_pass else 'valid'}"
+                    if passed != should_pass:
+                        core.classify(known, part, f"C19:{kind}:{'let-through' if passed else 'refused'}:history:{'swapped-slots' if not should_pass else 'valid'}",
+                                      {"dimension": name, "other_dimension": str(wdim), "step": step, "call": [str(x.units) for x in pair], "earlier_calls": [[str(x.units) for x in p_] for p_, _ in seq[:step]]})
+                    elif kind == "accepts" and not passed and calls["n"]:
+                        core.classify(known, part, "C19:accepts:function-called-before-refusal:history", {"dimension": name})
+                    elif kind == "returns" and passed and r is not pair:
+                        core.classify(known, part, "C19:returns:result-altered:history", {"dimension": name})
+                    else:
+                        part.nt((kind, name, un))
         if len(part.samples) < 1:
             part.sample({"dimension": name, "spellings": [str(q.units) for q in spell], "wrong": str(wrong.units)})
     return part
